@@ -1,4 +1,6 @@
 """C18 - computed calibration keypoints are valid for every data sample."""
+import math
+from fractions import Fraction
 import numpy as np
 import common
 from common import Case, cq, cql, clist, cnat, copt, cbool
@@ -7,15 +9,19 @@ import tfimpl
 ID = "C18"
 HMODULE = "H_C18"
 RULE = ("premade_lib.compute_keypoints on generated arrays (heavy duplicates, few distinct values, skewed, "
-        "constant, constant after clipping, runs, empty; float64, float32 or int64), num_keypoints 2..12 drawn around the "
+        "constant, constant after clipping, runs, empty, exactly representable values at 2**53 / 1e16 / 2**60 two "
+        "spacings apart, values 2**-40 apart, arrays of 100-400 elements with num_keypoints up to 40; float64, "
+        "float32 (both modes) or int64), num_keypoints 2..12 drawn around the "
         "number of distinct clipped values, 'quantiles'/'uniform' (and an invalid mode), every combination of "
         "clip_min/clip_max (inside, on a data value, outside, crossing), default_value present/absent/everything, "
-        "weights none/ones/positive dyadics/with zeros/leading and trailing zeros/all zero/one dominating value, 'mean'/'sum' (and an "
-        "invalid reduction); plus compute_feature_keypoints, set_feature_keypoints and compute_label_keypoints/"
+        "weights none/ones/positive dyadics/with zeros/leading and trailing zeros/all zero/one dominating value/mixed signs/all non-positive (reduced sum nonzero), 'mean'/'sum' (and an "
+        "invalid reduction); for a subset the real PWLCalibration layer is built on the keypoints and called below, at, "
+        "between and above them; plus compute_feature_keypoints, set_feature_keypoints and compute_label_keypoints/"
         "set_label_keypoints on small FeatureConfig / model config lists (categorical skip, user-given keypoints, "
         "missing configs, string labels, logits). The implementation's result is compared in Coq with "
         "Model/Keypoints.v (accepting either neighbour where the exact index is a rounding tie) and the property's "
-        "clauses are evaluated on it. Non-trivial = at least two keypoints were returned from at least two distinct "
+        "clauses are evaluated on it ('quantiles' results are compared exactly; with negative weights the result must be "
+        "k strictly increasing distinct values from the smallest to the largest, C18_valid_for_any_interp_indices). Non-trivial = at least two keypoints were returned from at least two distinct "
         "clipped values; distinct = distinct case descriptions.")
 TRUSTED = ["model: Model/Keypoints.v (hand-written from premade_lib.py compute_keypoints, _weighted_quantile, "
            "compute_feature_keypoints, set_feature_keypoints, compute_label_keypoints; NumPy's unique/argsort/"
@@ -29,7 +35,14 @@ LIMITS = ["constant-after-clipping data yields one keypoint ('quantiles') or k e
           "data that is empty after default_value removal and without clip bounds: 'uniform' raises IndexError, "
           "'quantiles' returns []; weights summing to zero raise IndexError for num_keypoints > 2 (excluded by the "
           "positive-sum hypothesis); NaN/inf values and plain Python lists as `values` are outside the property",
-          "float rounding of the index computations is outside the model (ties accept either neighbour)"]
+          "float rounding of the index computations is outside the model (ties accept either neighbour)",
+          "float representation: 'uniform' cannot return num_keypoints distinct doubles when (max - min) / (k - 1) is "
+          "below the spacing of doubles at that magnitude (np.array([1e16, 1e16 + 2]), k = 3 gives [1e16, 1e16, "
+          "1e16 + 2]; float32 data gives a float32 linspace: [1, 1.0000001] -> [1, 1, 1.0000001]), and int64 values "
+          "beyond 2**53 collapse in the conversion to float; the generator keeps >= 4 spacings per 'uniform' step",
+          "negative example weights: np.interp's search on the then non-monotone weighted quantiles is not "
+          "modelled; only the property's clauses are checked on those cases (Coq: check_sel), and weights whose "
+          "reduced sum cancels to zero are not generated (same IndexError as D67, C18_error_iff)"]
 
 MODES = {"quantiles": "Quantiles", "uniform": "Uniform", "bogus": "MOther"}
 REDS = {"mean": "RMean", "sum": "RSum", "bogus": "ROther"}
@@ -64,7 +77,43 @@ def _values(rng, dist):
     return vs
   if dist == "ints":
     return [float(rng.randint(-5, 12)) for _ in range(rng.randint(2, 40))]
+  if dist == "big":
+    # large magnitudes, near-equal large values (1e16, 1e16 + 2): every value is an exactly representable integer
+    # (the spacing of doubles at 2**53 .. 2**54 is 2), so 'quantiles' results and the Coq comparison stay exact
+    base = rng.choice([2.0 ** 53, 1e16, -1e16, -(2.0 ** 53) - 64.0, 2.0 ** 60])
+    ulp = math.ulp(abs(base))
+    m = rng.randint(2, 9)
+    support = [base + ulp * j for j in sorted(rng.sample(range(0, 40), m))]
+    return [rng.choice(support) for _ in range(rng.randint(m, 30))] + (support if rng.random() < 0.7 else [])
+  if dist == "fine":
+    # near-equal values at unit magnitude: distinct values 2**-40 apart
+    off = dy(rng, -4, 4)
+    m = rng.randint(2, 9)
+    support = [off + j * 2.0 ** -40 for j in sorted(rng.sample(range(0, 64), m))]
+    return [rng.choice(support) for _ in range(rng.randint(m, 30))] + (support if rng.random() < 0.7 else [])
+  if dist == "long":
+    # arrays of 100-400 elements with up to ~120 distinct values (num_keypoints up to 40, see _gen_call)
+    n = rng.randint(100, 400)
+    m = rng.choice([3, 15, 40, 120])
+    support = rng.sample([i / 8.0 for i in range(-400, 401)], m)
+    return [rng.choice(support) for _ in range(n)]
   return []  # "empty"
+
+
+def _reduced_sum(values, cmin, cmax, dv, weights, red):
+  """Exact sum of the per-distinct-value reduced weights, as compute_keypoints forms them (clip sentinels carry
+  weight 0 and count as an instance for 'mean')."""
+  ps = [(v, w) for v, w in zip(values, weights) if dv is None or v != dv]
+  if cmin is not None:
+    ps = [(max(v, cmin), w) for v, w in ps] + [(cmin, 0.0)]
+  if cmax is not None:
+    ps = [(min(v, cmax), w) for v, w in ps] + [(cmax, 0.0)]
+  groups = {}
+  for v, w in ps:
+    g = groups.setdefault(v, [Fraction(0), 0])
+    g[0] += Fraction(w)
+    g[1] += 1
+  return sum((g[0] / g[1] if red == "mean" else g[0]) for g in groups.values())
 
 
 def _clipped(values, cmin, cmax, dv):
@@ -76,10 +125,10 @@ def _clipped(values, cmin, cmax, dv):
   return vals
 
 
-def _gen_call(rng, allow_bogus=True):
-  """One compute_keypoints argument set (also used for the helpers)."""
-  dist = rng.choices(["dup", "few", "skew", "const", "spread", "run", "ints", "empty"],
-                     [20, 12, 12, 6, 18, 20, 8, 2])[0]
+def _gen_call(rng, allow_bogus=True, extended=True):
+  """One compute_keypoints argument set (also used for the helpers, without the extended classes)."""
+  dist = rng.choices(["dup", "few", "skew", "const", "spread", "run", "ints", "empty", "big", "fine", "long"],
+                     [20, 12, 12, 6, 18, 20, 8, 2] + ([5, 3, 2] if extended else [0, 0, 0]))[0]
   values = _values(rng, dist)
   lo = min(values) if values else 0.0
   hi = max(values) if values else 1.0
@@ -110,8 +159,8 @@ def _gen_call(rng, allow_bogus=True):
     dv = values[0]
     values = [dv] * len(values) if rng.random() < 0.5 else values
   n = len(values)
-  wk = rng.choices(["none", "ones", "pos", "zeros", "lead0", "trail0", "allzero", "spike"],
-                   [36, 8, 20, 12, 7, 7, 2, 8])[0]
+  wk = rng.choices(["none", "ones", "pos", "zeros", "lead0", "trail0", "allzero", "spike", "neg", "negall"],
+                   [36, 8, 20, 12, 7, 7, 2, 8] + ([7, 2] if extended else [0, 0]))[0]
   if wk == "none":
     weights = None
   elif wk == "ones":
@@ -122,6 +171,10 @@ def _gen_call(rng, allow_bogus=True):
     weights = [0.0 if rng.random() < 0.35 else rng.randint(1, 16) / 8.0 for _ in range(n)]
   elif wk == "allzero":
     weights = [0.0] * n
+  elif wk == "neg":     # mixed signs (np.interp then searches a non-monotone xp)
+    weights = [rng.randint(-16, 24) / 8.0 for _ in range(n)]
+  elif wk == "negall":  # no positive weight at all
+    weights = [-rng.randint(0, 16) / 8.0 for _ in range(n)]
   elif wk == "spike":  # one value carries almost all the weight: many quantiles hit the same index
     heavy = rng.choice(values) if values else 0.0
     weights = [64.0 if v == heavy else rng.choice([0.0, 0.125, 0.125, 0.25]) for v in values]
@@ -136,13 +189,37 @@ def _gen_call(rng, allow_bogus=True):
   else:
     k = rng.randint(2, 12)
   k = max(2, min(12, k))
+  if dist == "long" and rng.random() < 0.7:
+    k = rng.choice([13, 20, 33, 40, max(2, min(40, d - 1)), max(2, min(40, d)), max(2, min(40, d + 1))])
   mode = rng.choices(["quantiles", "uniform", "bogus"], [60, 37, 3 if allow_bogus else 0])[0]
   red = rng.choices(["mean", "sum", "bogus"], [55, 42, 3 if allow_bogus else 0])[0]
+  if wk in ("neg", "negall") and red != "bogus" and values:
+    # weights whose reduced sum cancels to zero belong to the open finding D67 (IndexError on int(nan) for k > 2,
+    # Props C18_error_iff); they are kept out of this class by moving one non-default example's weight
+    kept = [i for i, v in enumerate(values) if dv is None or v != dv]
+    for _ in range(4):
+      if not kept or _reduced_sum(values, cmin, cmax, dv, weights, red) != 0:
+        break
+      weights[kept[0]] -= 0.125
+  if mode == "uniform" and dist in ("big", "fine"):
+    # float limit (reported, kept out of the stream): 'uniform' cannot return num_keypoints distinct doubles when the
+    # spacing (max - min) / (k - 1) is below the spacing of doubles at that magnitude; keep >= 4 ulps per step
+    cl = _clipped(values, cmin, cmax, dv)
+    if cl:
+      ulp = math.ulp(max(abs(min(cl)), abs(max(cl)), 1.0)) if dist == "big" else 2.0 ** -50
+      k = max(2, min(k, int((max(cl) - min(cl)) / (4 * ulp)) + 1))
   as_int = dist == "ints" and rng.random() < 0.7
-  if not as_int and mode == "quantiles" and rng.random() < 0.12:
-    as_int = "float32"  # results are data values (exact); 'uniform' on float32 data is a float32-only linspace
+  if not as_int and dist not in ("big", "fine") and rng.random() < 0.12:
+    if mode == "quantiles":
+      as_int = "float32"  # results are data values (exact)
+    elif mode == "uniform" and dist != "long":
+      # 'uniform' on float32 data is a float32-only linspace: exact for these dyadic values when k - 1 is a power of 2
+      as_int = "float32"
+      k = min([2, 3, 5, 9], key=lambda c: (abs(c - k), c))
+  # a subset also builds and calls the real PWLCalibration layer on the computed keypoints
+  layer = (dist in ("big", "fine") or rng.random() < 0.15)
   return dict(values=values, k=k, mode=mode, clip_min=cmin, clip_max=cmax, default=dv,
-              weights=weights, red=red, dist=dist, wkind=wk, as_int=as_int)
+              weights=weights, red=red, dist=dist, wkind=wk, as_int=as_int, layer=layer)
 
 
 # regression inputs: leading zero weights (fixed by f7c207e) and float ties
@@ -174,7 +251,7 @@ def _gen_feature(rng):
   feats = []
   fcs = []
   for name in names:
-    call = _gen_call(rng, allow_bogus=False)
+    call = _gen_call(rng, allow_bogus=False, extended=False)
     vals = (call["values"] * (n // max(1, len(call["values"])) + 1))[:n] if call["values"] else [1.0] * n
     feats.append([name, vals])
     kind = rng.choices(["numeric", "categorical", "given", "missing"], [55, 15, 15, 15])[0]
@@ -205,7 +282,7 @@ def _gen_setfeature(rng):
 
 
 def _gen_label(rng):
-  call = _gen_call(rng, allow_bogus=False)
+  call = _gen_call(rng, allow_bogus=False, extended=False)
   spec = rng.choices(["mode", "given"], [85, 15])[0]
   lab = rng.choices(["num", "str", "bytes", "object"], [70, 12, 9, 9])[0]
   d = dict(kind="label", spec=spec, mode=call["mode"], k=call["k"], output_min=call["clip_min"],
@@ -263,8 +340,11 @@ def _pred(values, k, mode, cmin, cmax, dv, weights, red, result, error, pwl_ok):
   if weights is not None:
     kept = [w for v, w in zip(values, weights) if dv is None or v != dv]
     if any(w < 0 for w in kept):
-      return None  # negative example weights are outside the statement
-    if sum(kept) <= 0:
+      # "all weight vectors": negative example weights are judged like any others, except where the reduced
+      # weights of the distinct values cancel to zero (the zero-sum finding D67; not generated)
+      if _reduced_sum(values, cmin, cmax, dv, weights, red) == 0:
+        return None
+    elif sum(kept) <= 0:
       # all weights zero: the statement ("returns without error for every finite data array with optional example
       # weights") covers it, the code does not: known finding D67 (theorem hypothesis weights_ok)
       return ("compute_keypoints raised with example weights that sum to zero: %s" % error) if error else None
@@ -287,6 +367,8 @@ def _pred(values, k, mode, cmin, cmax, dv, weights, red, result, error, pwl_ok):
   if len(distinct) >= 2 or mode == "uniform":
     if abs(result[-1] - distinct[-1]) > tol:
       return "last keypoint %r is not the clip bound / data maximum %r" % (result[-1], distinct[-1])
+  if mode == "quantiles" and any(x not in distinct for x in result):
+    return "'quantiles' keypoint that is not a clipped data value: %r" % ([x for x in result if x not in distinct],)
   if len(distinct) >= k or mode == "uniform":
     if len(result) != k:
       return "%d keypoints returned, num_keypoints=%d, %d distinct values" % (len(result), k, len(distinct))
@@ -314,6 +396,30 @@ def _pwl_accepts(tfl, kps):
     return True
   except ValueError:
     return False
+
+
+def _pwl_layer_fail(tfl, kps, dtype):
+  """Builds the real PWLCalibration layer on the computed keypoints and calls it below, at, between and above
+  them. Returns None or the violated clause (error, wrong shape, non-finite or non-monotone default function)."""
+  kps = [float(x) for x in kps]
+  try:
+    layer = tfl.layers.PWLCalibration(input_keypoints=np.array(kps), dtype=dtype, output_min=0.0, output_max=1.0,
+                                      monotonicity="increasing")
+    span = max(abs(kps[0]), abs(kps[-1]), 1.0)
+    xs = [kps[0] - 0.25 * span] + [x for a, b in zip(kps, kps[1:]) for x in (a, a + (b - a) * 0.5)] + [
+        kps[-1], kps[-1] + 0.25 * span]
+    out = np.asarray(layer(np.array(xs, dtype=dtype).reshape(-1, 1)))
+  except Exception as e:  # pylint: disable=broad-except
+    return "PWLCalibration built on the keypoints raised %s: %s" % (type(e).__name__, str(e)[:200])
+  if out.shape != (len(xs), 1):
+    return "PWLCalibration on the keypoints returned shape %r" % (out.shape,)
+  o = [float(v) for v in out.reshape(-1)]
+  if not all(np.isfinite(o)):
+    return "PWLCalibration on the keypoints returned non-finite outputs %r" % (o,)
+  tol = 1e-5 if dtype == "float32" else 1e-9
+  if any(b < a - tol for a, b in zip(o, o[1:])) or abs(o[0]) > tol or abs(o[-1] - 1.0) > tol:
+    return "PWLCalibration on the keypoints is not the increasing default function from 0 to 1: %r" % (o,)
+  return None
 
 
 def _cfc(fc):
@@ -362,6 +468,12 @@ def _eval_direct(tfl, pl, d):
   pwl_ok = _pwl_accepts(tfl, np.array(res)) if res is not None else False
   fail = _pred(d["values"], d["k"], d["mode"], d["clip_min"], d["clip_max"], d["default"], d["weights"],
                d["red"], res, err, pwl_ok)
+  layered = False
+  if fail is None and d.get("layer") and pwl_ok and res is not None:
+    # float32 is the layer's default dtype; near-equal keypoints need the float64 layer to stay distinct
+    gap = min((b - a) / max(abs(a), abs(b), 1.0) for a, b in zip(res, res[1:]))
+    fail = _pwl_layer_fail(tfl, res, "float32" if gap > 1e-4 else "float64")
+    layered = True
   coq = "Direct %s %s %s %s %s %s %s %s %s %s" % (
       cql(d["values"]), cnat(d["k"]), MODES[d["mode"]], copt(d["clip_min"]), copt(d["clip_max"]),
       copt(d["default"]), _cws(d["weights"]), REDS[d["red"]], copt(res, cql), cbool(pwl_ok))
@@ -372,6 +484,12 @@ def _eval_direct(tfl, pl, d):
   clip = ("min" if d["clip_min"] is not None else "") + ("max" if d["clip_max"] is not None else "") or "noclip"
   klass = "direct_%s_%s_%s_%s%s" % (d["mode"], "w-" + d["wkind"] if d["weights"] is not None else "unweighted",
                                      clip, rel, "_err" if err else "")
+  if d["dist"] in ("big", "fine", "long"):
+    klass += "_" + d["dist"]
+  if d.get("as_int") == "float32":
+    klass += "_f32"
+  if layered:
+    klass += "_layer"
   return Case(d, coq=coq, pred_fail=fail, nontrivial=(res is not None and len(res) >= 2 and nd >= 2), klass=klass,
               info={"impl_output": res, "impl_error": err, "pwl_accepts": pwl_ok, "distinct_clipped": nd})
 
@@ -546,3 +664,16 @@ def _d67(case):
 
 
 KNOWN_CLASSES = dict(globals().get("KNOWN_CLASSES", {}), weights_sum_zero=_d67)
+
+
+def _probe_d74(ctx):
+  """Known finding D74: at the float precision limit 'uniform' keypoints of two distinct values collapse."""
+  _, tfl = tfimpl.tfl()
+  from tensorflow_lattice.python import premade_lib as pl  # pylint: disable=g-import-not-at-top
+  kp = [float(v) for v in pl.compute_keypoints(np.array([1e16, 1e16 + 2]), 3, "uniform")]
+  if not all(a < b for a, b in zip(kp, kp[1:])):
+    return "compute_keypoints(np.array([1e16, 1e16+2]), 3, 'uniform') = %r (not strictly increasing)" % (kp,)
+  return None
+
+
+KNOWN_PROBES = {"keypoints_collapse_at_float_precision": _probe_d74}
